@@ -1167,7 +1167,14 @@ class SmtLibParser(object):
         Parse an assignment list produced by get-model and get-value
         commands in SmtLib
         """
-        symbols = self.env.formula_manager.symbols
+        symbols = {}
+        for name, symbol in self.env.formula_manager.symbols.items():
+            if symbol.symbol_type().is_function_type():
+                # Function symbols are applied to their arguments
+                symbols[name] = functools.partial(self._function_call_helper,
+                                                  symbol)
+            else:
+                symbols[name] = symbol
         self.cache.update(symbols)
         tokens = Tokenizer(script, interactive=self.interactive)
         res = []
